@@ -21,6 +21,7 @@ pub mod io {
 }
 
 pub mod task;
+pub mod runtime;
 pub mod fs;
 pub mod time;
 mod stdin;
